@@ -57,6 +57,18 @@ PSI_C = 1.0
 ORDER_GAP = 1e-6
 
 
+# tilted elongated O-points: elongation x tilt angle (degrees) of the elliptical flux surfaces
+ELL_LATTICE = {
+    "quick": ([1.5, 2.0, 2.6], [20.0, 45.0, 65.0, -40.0]),
+    "thorough": ([1.25, 1.5, 1.75, 2.0, 2.6, 3.2], [10.0, 20.0, 30.0, 45.0, 60.0, 65.0, 80.0, -25.0, -40.0, -70.0]),
+}
+
+
+def ell_families(tier):
+    ks, ths = ELL_LATTICE[tier]
+    return [fams.ell_name(k, t) for k in ks for t in ths]
+
+
 def resolutions(tier):
     r = [(33, 33), (65, 65), (65, 97)]
     if tier == "thorough":
@@ -126,8 +138,8 @@ def fc_task(task):
 def _judge_fc(case, fam, ref, exp, op, xp, cell, dom, viol, st):
     dR, dZ = cell
     atol = case["atol"]
-    scale = max(abs(c["psi"]) for c in exp) if fam.terms else 1.0
-    wmin = _wmin(fam.name)
+    scale = max(abs(c["psi"]) for c in exp) if fam.wmin else 1.0
+    wmin = fam.wmin
     got = [dict(R=float(p[0]), Z=float(p[1]), psi=float(p[2]), kind=k) for k, lst in (("O", op), ("X", xp))
            for p in lst]
     st["points"] += len(exp)
@@ -272,7 +284,9 @@ def _ref_points(geom, sigma, nR, nZ):
 
 def eq_ladder(psin2):
     """psinorm_sol values: below 1 (no X-point qualifies), between the separatrices, +-1e-3,
-    +-1e-6 about the secondary X-point's normalised psi, and beyond"""
+    +-1e-6 about the secondary X-point's normalised psi, and beyond.  Every value is used twice:
+    as the option psinorm_sol, and converted to flux as the options psi_sol/psi_sol_inner with
+    psinorm_sol set to a decoy on the other side of the deciding X-point."""
     lad = [1.0 - 1e-6]
     if psin2 is None:
         return lad + [1.0 + 1e-6, 1.001, 1.02, 1.1, 1.3]
@@ -324,12 +338,29 @@ def eq_task(task):
             continue  # these walls cut next to the *second* X-point
         wall = _wall(wname, xr)
         inside = [_point_in_polygon((x[0], x[1]), wall) for x in xr]
-        for sol in task.get("sols") or eq_ladder(psin[1] if len(psin) > 1 else None):
+        psin2 = psin[1] if len(psin) > 1 else None
+        ladder = [(sol, via) for via in task.get("vias", ("psinorm_sol", "psi_sol"))
+                  for sol in (task.get("sols") or eq_ladder(psin2))]
+        for sol, via in ladder:
             st["cases"] += 1
-            case = dict(geom=geom, sigma=sigma, res=[nR, nZ], wall=wname, psinorm_sol=sol)
+            case = dict(geom=geom, sigma=sigma, res=[nR, nZ], wall=wname, psinorm_sol=sol, via=via)
             keep = [k for k in range(len(xr)) if psin[k] < sol and inside[k]]
-            settings = dict(psinorm_sol=sol, xpoint_refine_atol=1e-12, nx_inter_sep=1 if (
+            settings = dict(xpoint_refine_atol=1e-12, nx_inter_sep=1 if (
                 len(xr) > 1 and abs(psin[1] - 1.0) > 1e-9) else 0)
+            if via == "psinorm_sol":
+                settings["psinorm_sol"] = sol
+            else:
+                # the same SOL edge given as raw flux (documented to override psinorm_sol), with
+                # psinorm_sol left on the *other* side of the X-point that sol decides about
+                # (the secondary one, or the only one): a decision taken from psinorm_sol shows
+                pivot = psin2 if (psin2 is not None and sol > 1.0) else 1.0
+                if sol > pivot:
+                    decoy = 1.0 + 0.5 * (pivot - 1.0) if pivot - 1.0 > 1e-5 else 0.99
+                else:
+                    decoy = pivot + 0.1
+                psi_sol = pax + sol * (xr[0][2] - pax)
+                settings.update(psinorm_sol=decoy, psi_sol=psi_sol, psi_sol_inner=psi_sol)
+                case["psinorm_sol_option"] = decoy
             exc = None
             with contextlib.redirect_stdout(io.StringIO()):
                 eq = tokamak.TokamakEquilibrium(R1.copy(), Z1.copy(), psi.copy(), psi1.copy(), 2.0 + 0.3 * s,
@@ -549,6 +580,13 @@ def tasks_for(tier, seed):
             if min(res) < fams.MIN_POINTS.get(name, 0):
                 continue
             A.append(dict(kind="fc", family=name, res=list(res), shifts=sh, signs=[1.0, -1.0], atols=ATOLS))
+    # the elliptical hills: quick tier on the coarsest and on the non-square grid with the tests'
+    # atol; thorough tier the full product
+    ell_res = [(33, 33), (65, 97)] if tier == "quick" else resolutions(tier)
+    ell_atols = ATOLS[:1] if tier == "quick" else ATOLS
+    for name in ell_families(tier):
+        for res in ell_res:
+            A.append(dict(kind="fc", family=name, res=list(res), shifts=sh, signs=[1.0, -1.0], atols=ell_atols))
     B = []
     eq_res = [(65, 65)] if tier == "quick" else [(65, 65), (33, 65), (129, 129)]
     walls = ["W0", "W4", "Wx+", "Wx-"]
@@ -619,7 +657,7 @@ def run(ctx, only=None):
             "construction is counted in eq_refused_after_decision, the decision itself is still judged); C: one "
             "call of findSaddlePoint, non-trivial unless the code refuses the box")
     ctx.set("exhaustive", only is None)
-    ctx.set("families", fams.names())
+    ctx.set("families", fams.names() + ell_families(ctx.tier))
     ctx.set("resolutions", [list(r) for r in resolutions(ctx.tier)])
     ctx.set("subcell_shifts", len(shifts_for(ctx.seed, ctx.tier)))
     ctx.set("seed_phase", list(SEED_PHASES[ctx.seed % 8]))
@@ -648,7 +686,7 @@ def replay(ctx, payload):
     if t["kind"] == "fc":
         t.update(shifts=[tuple(c["shift"])], signs=[c["sign"]], atols=[(c["atol"], c["maxits"])])
     elif t["kind"] == "eq":
-        t.update(walls=[c["wall"]], sols=[c["psinorm_sol"]])
+        t.update(walls=[c["wall"]], sols=[c["psinorm_sol"]], vias=[c.get("via", "psinorm_sol")])
     else:
         t.update(shifts=[tuple(c["shift"])])
     run(ctx, only=[t])
